@@ -5,6 +5,7 @@ KinModel/RouterSpec.lean (property side), helper lemmas in KinModel/Lemmas/C09*.
 -/
 import KinModel.Router
 import KinModel.RouterSpec
+import KinModel.RouterHist
 import KinModel.Lemmas.C09Legacy
 import KinModel.Lemmas.C09LegacyComplete
 import KinModel.Lemmas.C09LegacyLiteral
@@ -44,7 +45,8 @@ theorem router_facts_matching_order :
     routerFact "inMatchingOrder.loop" = some "c := 0; c <= max; c++" ∧
     routerFact "inMatchingOrder.sort" = some "sort.Sort(sort.Reverse(sort.StringSlice(ps)))" := by decide +kernel
 
-/-- gorillamux: encoded-path mux router; one fresh Route per (path, server) carrying that server; FindRoute returns a copy;
+/-- gorillamux: encoded-path mux router; one fresh Route per (path, server) carrying that server; FindRoute returns a copy
+    and its only writes through a field go to that copy (Method, Operation: `stepCopy` of RouterHist.lean);
     newSrv drops one trailing slash of any non-empty base path; a path item's servers are assigned to a variable that the
     loop body redeclares on every iteration (`servers := servers`: no leak to the following path items, `gLoop`) -/
 theorem router_facts_gorillamux :
@@ -54,16 +56,20 @@ theorem router_facts_gorillamux :
     routerFact "gorilla.newRouter.route" = some "Spec: doc, Server: s.server, Path: path, PathItem: pathItem, Method: \"\", Operation: nil" ∧
     routerFact "gorilla.newRouter.pathServers" = some "servers := servers | servers, err = makeServers(pathItem.Servers)" ∧
     routerFact "gorilla.findRoute.copy" = some "route := *r.routes[i]" ∧
+    routerFact "gorilla.findRoute.fieldWrites" = some "route.Method = req.Method | route.Operation = route.Spec.Paths.Value(route.Path).GetOperation(route.Method)" ∧
     routerFact "gorilla.findRoute.returns" = some "return &route, vars, nil | return nil, nil, routers.ErrMethodNotAllowed | return nil, nil, routers.ErrPathNotFound" ∧
     routerFact "gorilla.newSrv.trim" = some "len(path) > 0 && path[len(path)-1] == '/'" := by decide +kernel
 
 /-- legacy: NewRouter ranges over two Go maps (hence the arbitrary key order of the legacy theorems), its stored routes have
-    no Server and FindRoute stores the matched one into the copy it returns; only the document's servers are read (F-C09-9); the
+    no Server and FindRoute stores the matched one into the copy it returns (its only writes through a field or index go to
+    that copy and to the fresh parameter map: `stepCopy`); only the document's servers are read (F-C09-9); the
     decoded `url.Path` is matched without servers, the escaped `url.String()` with servers (`legacyFindW`) -/
 theorem router_facts_legacy :
     routerFact "legacy.newRouter.ranges" = some "doc.Paths.Map() | pathItem.Operations()" ∧
     routerFact "legacy.newRouter.routeFields" = some "Spec,Path,PathItem,Method,Operation" ∧
     routerFact "legacy.findRoute.setsRouteServer" = some "r.Server = server" ∧
+    routerFact "legacy.findRoute.copyBranch" = some "if server != nil { r := *route r.Server = server route = &r }" ∧
+    routerFact "legacy.findRoute.fieldWrites" = some "pathParams[name] = value | r.Server = server | pathParams[key] = value" ∧
     routerFact "legacy.findRoute.serversFrom" = some "doc.Servers" ∧
     routerFact "legacy.findRoute.remainingPath" = some "remainingPath = url.Path | server, paramValues, remainingPath = servers.MatchURL(url)" ∧
     routerFact "servers.matchURL.input" = some "rawURL := parsedURL.String()" ∧
@@ -1387,5 +1393,138 @@ open W in
 /-- the request side of the `*_abs` theorems: well separated scheme / host / path, no port -/
 example : ReqWF ⟨get, true, s "https", s "example.com", s "/api/v2/a"⟩ ∧ ':' ∉ s "example.com" := by
   unfold ReqWF; decide +kernel
+
+/-! ## the history dimension: many `FindRoute` calls on one router, callers keep the routes of earlier calls
+    (`KinModel/RouterHist.lean`; tied by the rows `gorilla.findRoute.copy`, `legacy.findRoute.setsRouteServer` of `RouterFacts`
+    and by the runner, which re-inspects a returned route after later calls with another method and through other servers) -/
+
+/-- a step that hands out copies (or unwritten stored pointers) leaves the store alone, for every pick function -/
+theorem history_copy_store_unchanged (find : Req → Option Pick) (st : Store) (reqs : List Req) :
+    (runHist (stepCopy find) st reqs).1 = st :=
+  runHist_store_of_pure _ (stepCopy_store find) st reqs
+
+/-- every answer within a history is the answer the freshly built router gives to that request alone -/
+theorem history_copy_answers (find : Req → Option Pick) (st : Store) (reqs : List Req) :
+    (runHist (stepCopy find) st reqs).2 = reqs.map (fun r => (stepCopy find st r).2) :=
+  runHist_handles_of_pure _ (stepCopy_store find) st reqs
+
+/-- a route a caller holds reads the same after any later history on the same router (both routers: `stepCopy`) -/
+theorem history_copy_results_stable (find : Req → Option Pick) (st : Store) (r : Req) (later : List Req) (h : RHandle)
+    (_hh : (stepCopy find st r).2 = some h) :
+    observe (runHist (stepCopy find) (stepCopy find st r).1 later).1 h = observe st h := by
+  rw [history_copy_store_unchanged, stepCopy_store]
+
+/-- gorillamux: whatever was asked before (`before`) and whatever is asked afterwards (`later`), the route returned for
+    `req` names exactly what the one-shot model `gFirst` names (template, method, server), at return time and for ever -/
+theorem gorilla_history_route (rs : List GRoute) (before later : List Req) (req : Req) (t m : Str)
+    (ps : List (Str × Str)) (sv : SrvRef) (h : gFirst rs req = .route t m ps sv) :
+    ∃ hd, (runHist (stepCopy (gPick rs)) (gStore rs) (before ++ req :: later)).2[before.length]? = some (some hd) ∧
+      observe (runHist (stepCopy (gPick rs)) (gStore rs) (before ++ req :: later)).1 hd = some ⟨t, m, sv⟩ := by
+  obtain ⟨i, r, hi, hr, h1, h2, h3⟩ := gFirstIdx_route rs req t m ps sv h
+  refine ⟨.copy ⟨t, m, sv⟩, ?_, rfl⟩
+  rw [history_copy_answers]
+  simp only [List.map_append, List.map_cons]
+  rw [List.getElem?_append_right (by simp)]
+  simp only [List.length_map, Nat.sub_self, List.getElem?_cons_zero, Option.some.injEq]
+  have hst : (gStore rs)[i]? = some ⟨r.template, [], r.srv.ref⟩ := by simp [gStore, hr]
+  simp [stepCopy, gPick, hi, hst, Pick.apply, h1, h2, h3]
+
+/-- gorillamux: an error answer of the history model is an error answer of `gFirst` (no route is invented by reuse) -/
+theorem gorilla_history_error (rs : List GRoute) (st : Store) (req : Req) (h : gPick rs req = none) :
+    (stepCopy (gPick rs) st req).2 = none ∧ (gFirst rs req = .notFound ∨ gFirst rs req = .methodNotAllowed) := by
+  refine ⟨by simp [stepCopy, h], gFirstIdx_none rs req ?_⟩
+  simpa [gPick] using h
+
+/-- position in the history: the handle returned for `req` after any earlier requests is the one the fresh router returns -/
+theorem history_copy_nth (find : Req → Option Pick) (st : Store) (before later : List Req) (req : Req) :
+    (runHist (stepCopy find) st (before ++ req :: later)).2[before.length]? = some (stepCopy find st req).2 := by
+  rw [history_copy_answers]
+  simp only [List.map_append, List.map_cons]
+  rw [List.getElem?_append_right (by simp)]
+  simp
+
+/-- legacy router, any insertion order of the keys: whatever was asked before and whatever is asked afterwards, the route
+    returned for `r` reads exactly what the one-shot model `legacyFindOrd` names (template, method, matched server) — a
+    private copy when a server was matched, the stored route itself (never written) on server-less documents -/
+theorem legacy_history_route (d : Doc) (ks : List Key) (before later : List Req) (r : Req) (t m : Str)
+    (ps : List (Str × Str)) (sv : SrvRef) (h : legacyFindOrd d ks r = .route t m ps sv) :
+    ∃ hd, (runHist (stepCopy (lPick d ks)) (lStore ks) (before ++ r :: later)).2[before.length]? = some (some hd) ∧
+      observe (runHist (stepCopy (lPick d ks)) (lStore ks) (before ++ r :: later)).1 hd = some ⟨t, m, sv⟩ := by
+  obtain ⟨hd, h1, h2⟩ := legacy_step_route d ks r t m ps sv
+    (fun rem k vals hm => legacy_match_declared ks r.method rem k vals hm) h
+  refine ⟨hd, ?_, ?_⟩
+  · rw [history_copy_nth, h1]
+  · rw [history_copy_store_unchanged]; exact h2
+
+/-- the copy is needed: with the write made in place, whenever two requests are answered by the same stored route and the
+    second write changes what the first wrote (another method, another server), the route the first caller holds reads
+    differently after the second call than when it was returned -/
+theorem history_in_place_changes (find : Req → Option Pick) (st : Store) (r1 r2 : Req) (p1 p2 : Pick) (v : RFields)
+    (h1 : find r1 = some p1) (h2 : find r2 = some p2) (hi : p2.idx = p1.idx) (hv : st[p1.idx]? = some v)
+    (hne : p2.apply (p1.apply v) ≠ p1.apply v) :
+    let a := stepInPlace find st r1
+    let b := stepInPlace find a.1 r2
+    a.2 = some (.stored p1.idx) ∧ observe a.1 (.stored p1.idx) = some (p1.apply v) ∧
+      observe b.1 (.stored p1.idx) = some (p2.apply (p1.apply v)) ∧
+      observe b.1 (.stored p1.idx) ≠ observe a.1 (.stored p1.idx) := by
+  have hlt : p1.idx < st.length := by
+    rcases Nat.lt_or_ge p1.idx st.length with h | h
+    · exact h
+    · rw [List.getElem?_eq_none h] at hv; cases hv
+  have ha : stepInPlace find st r1 = (st.set p1.idx (p1.apply v), some (.stored p1.idx)) := by
+    simp [stepInPlace, h1, hv]
+  have hget : (st.set p1.idx (p1.apply v))[p1.idx]? = some (p1.apply v) := by
+    simp [hlt]
+  have hb : stepInPlace find (st.set p1.idx (p1.apply v)) r2 =
+      ((st.set p1.idx (p1.apply v)).set p1.idx (p2.apply (p1.apply v)), some (.stored p1.idx)) := by
+    simp [stepInPlace, h2, hi, hget]
+  simp only [ha, hb, observe, hget]
+  have hget2 : ((st.set p1.idx (p1.apply v)).set p1.idx (p2.apply (p1.apply v)))[p1.idx]? = some (p2.apply (p1.apply v)) := by
+    simp [hlt]
+  rw [hget2]
+  refine ⟨trivial, trivial, rfl, ?_⟩
+  intro h
+  exact hne (Option.some.inj h)
+
+open W in
+/-- witness for the class the copy protects against (seeded change C09-r3m2 and its twins): with the write made in place,
+    the route returned for GET reads POST after the next call -/
+theorem witness_history_in_place :
+    let find : Req → Option Pick := fun r => some ⟨0, some r.method, none⟩
+    let st : Store := [⟨s "/a", [], .doc 0⟩]
+    let a := stepInPlace find st (req "GET" "/a")
+    let b := runHist (stepInPlace find) a.1 [req "POST" "/a"]
+    a.2.bind (observe a.1) = some ⟨s "/a", get, .doc 0⟩ ∧ a.2.bind (observe b.1) = some ⟨s "/a", post, .doc 0⟩ := by
+  decide +kernel
+
+open W in
+/-- non-vacuity of `gorilla_history_route`: two requests through the two servers of `dTwo` on one router; both handles read
+    their own server after the whole history -/
+example : ∃ rs, gorillaRoutes dTwo = some rs ∧
+    (let h := runHist (stepCopy (gPick rs)) (gStore rs) [reqRel "GET" "/v1/a", reqRel "GET" "/v2/x/a"]
+     h.2.map (fun o => o.bind (observe h.1)) =
+       [some ⟨s "/a", get, .doc 0⟩, some ⟨s "/a", get, .doc 1⟩]) := by
+  refine ⟨(gorillaRoutes dTwo).getD [], by decide +kernel, ?_⟩
+  decide +kernel
+
+open W in
+/-- non-vacuity of `legacy_history_route`: the same template through the two servers of `dTwo` on one router (two private
+    copies naming their own server), and a server-less document where the stored route itself is handed out twice -/
+example :
+    (let h := runHist (stepCopy (lPick dTwo (docKeys dTwo))) (lStore (docKeys dTwo)) [reqRel "GET" "/v1/a", reqRel "GET" "/v2/x/a"]
+     h.2.map (fun o => o.bind (observe h.1)) = [some ⟨s "/a", get, .doc 0⟩, some ⟨s "/a", get, .doc 1⟩]) ∧
+    (let h := runHist (stepCopy (lPick d40 (docKeys d40))) (lStore (docKeys d40)) [req "GET" "/a/zz", req "GET" "/a/yy"]
+     h.2.all (fun o => match o with | some (.stored _) => true | _ => false) = true ∧
+     h.2.map (fun o => o.bind (observe h.1)) = [some ⟨s "/a/{x}", get, .none⟩, some ⟨s "/a/{x}", get, .none⟩]) := by
+  decide +kernel
+
+open W in
+/-- the hypotheses of `history_in_place_changes` hold for GET then POST on one stored route, and for one template asked
+    through two servers (the write of Server) -/
+example :
+    (⟨0, some post, none⟩ : Pick).apply ((⟨0, some get, none⟩ : Pick).apply ⟨s "/a", [], .doc 0⟩) ≠
+      (⟨0, some get, none⟩ : Pick).apply ⟨s "/a", [], .doc 0⟩ ∧
+    (⟨0, none, some (.doc 1)⟩ : Pick).apply ((⟨0, none, some (.doc 0)⟩ : Pick).apply ⟨s "/a", get, .none⟩) ≠
+      (⟨0, none, some (.doc 0)⟩ : Pick).apply ⟨s "/a", get, .none⟩ := by decide +kernel
 
 end KinModel.Props.C09
